@@ -129,10 +129,11 @@ class RefShampoo:
 class RefSketchy:
     """frequent-directions preconditioning of one merged tensor (covariance units: lam = eigenvalues of the sketch, rho = escaped mass)"""
 
-    def __init__(self, np, ms, c):
+    def __init__(self, np, ms, c, ranks=None):
         self.np, self.ms, self.c = np, list(ms), c
         sk = c["sk"]
-        self.k = [min(d, sk["rank"]) for d in ms]
+        ranks = ranks if ranks is not None else [sk["rank"]] * len(ms)     # `memory_alloc`: a rank per axis of this tensor
+        self.k = [min(d, r) for d, r in zip(ms, ranks)]
         self.V = [np.zeros((d, k)) for d, k in zip(ms, self.k)]
         self.lam = [np.zeros(k) for k in self.k]
         self.rho = [0.0 for _ in ms]
@@ -231,6 +232,12 @@ class RefAdafactor:
         return u    # adafactor's own -1 and tearfree's -1 cancel
 
 
+def sk_ranks(c, name):
+    """`sketchy.Options.memory_alloc`: requested rank per axis of the (merged) tensor `name`, or None (global rank)"""
+    alloc = c.get("sk", {}).get("alloc")
+    return list(alloc[name]) if alloc and name in alloc else None
+
+
 def ref_lr(c, t):
     return c["lr"]["table"][t] if c["lr"]["kind"] == "sched" else c["lr"]["v"]
 
@@ -243,7 +250,7 @@ def ref_leaf(np, c, name, grads, xs, lr_scale=1.0):
     ms = ref_merge_shape(shape, c["merge"])
     so = None
     if not masked:
-        so = RefSketchy(np, ms, c) if c["so"] == "sketchy" else RefShampoo(np, ms, c)
+        so = RefSketchy(np, ms, c, sk_ranks(c, name)) if c["so"] == "sketchy" else RefShampoo(np, ms, c)
     acc = np.zeros(shape)
     ada = RefAdafactor(np, shape, g) if g["type"] == "ADAFACTOR" else None
     vel = np.zeros(shape)
@@ -347,7 +354,9 @@ def build_options(c, lr_scale=1.0):
         so = second_order.Options(
             merge_dims=c["merge"], second_order_type=second_order.SecondOrderType.SKETCHY, shampoo_options=None,
             sketchy_options=tfk.Options(epsilon=sk["eps"], rank=sk["rank"], relative_epsilon=sk["rel"],
-                                        second_moment_decay=sk["decay"], update_freq=sk["freq"]))
+                                        second_moment_decay=sk["decay"], update_freq=sk["freq"],
+                                        add_ggt=bool(sk.get("add_ggt", False)),
+                                        memory_alloc=({k: list(v) for k, v in sk["alloc"].items()} if sk.get("alloc") else None)))
     else:
         so = second_order.Options(
             merge_dims=c["merge"], second_order_type=second_order.SecondOrderType.SHAMPOO,
@@ -423,15 +432,18 @@ def _valid_shampoo(c):
 
 def _sketchy_robust(c):
     """every factor handed to the SVD has full rank from the first step on (see the module docstring of the reference)"""
-    for shp in c["shapes"].values():
+    for name, shp in c["shapes"].items():
         if ref_mask(c["graft"], shp):
             continue
         ms = ref_merge_shape(shp, c["merge"])
         n = 1
         for d in ms:
             n *= d
-        for d in ms:
-            k = min(d, c["sk"]["rank"])
+        ranks = sk_ranks(c, name) or [c["sk"]["rank"]] * len(ms)
+        if len(ranks) != len(ms):
+            return False
+        for d, r in zip(ms, ranks):
+            k = min(d, r)
             if n // d < min(d, k + 1):
                 return False
     return True
@@ -483,6 +495,11 @@ def gen_case(rng, cid, so, seed, focus=None):
         if so == "shampoo" and not _valid_shampoo(c):
             continue
         if so == "sketchy":
+            c["sk"]["add_ggt"] = rng.random() < 0.3
+            if rng.random() < 0.35:
+                # memory_alloc: an own rank for every axis of every (merged) tensor
+                c["sk"]["alloc"] = {n: [rng.choice([1, 2, 3, 8]) for _ in ref_merge_shape(shp, c["merge"])]
+                                    for n, shp in c["shapes"].items()}
             if c["grad"]["kind"] in ("lowrank", "blockscale"):
                 c["grad"]["kind"] = "randn"
             if c["grad"]["zero"]:
@@ -490,6 +507,8 @@ def gen_case(rng, cid, so, seed, focus=None):
             if not _sketchy_robust(c):
                 if c["graft"]["type"] != "NONE":
                     c["graft"]["rank1"] = True
+                if not _sketchy_robust(c):
+                    c["sk"].pop("alloc", None)
                 if not _sketchy_robust(c):
                     continue
         return c
@@ -514,6 +533,8 @@ def leaf_request(c, name, grads, xs, ext=None):
         sk = c["sk"]
         so = {"kind": "sketchy", "merge": c["merge"], "rank": sk["rank"], "freq": sk["freq"], "eps": kit.f64_hex(sk["eps"]),
               "rel": sk["rel"], "decay": kit.f64_hex(sk["decay"])}
+        if sk_ranks(c, name) is not None:
+            so["ranks"] = sk_ranks(c, name)
     else:
         so = {"kind": "shampoo", "merge": c["merge"], "block": c["block"], "sf": c["sf"], "pf": c["pf"],
               "decay": kit.f64_hex(c["so_decay"]), "cut": kit.f64_hex(c["cut"])}
@@ -1181,6 +1202,8 @@ def execute(ctx, tasks):
                 ctx.dist(f"momentum.{k}={c['mom'][k]}")
             ctx.dist(f"momentum.decay={c['mom']['decay']}.wd={c['mom']['wd']}")
             ctx.dist("lr." + c["lr"]["kind"])
+            if c["so"] == "sketchy":
+                ctx.dist("sketchy.add_ggt=%s.memory_alloc=%s" % (bool(c["sk"].get("add_ggt")), bool(c["sk"].get("alloc"))))
         elif kind in ("pad", "merge"):
             ctx.evaluated(o.get("checked", 0))
             ctx.cov["search_evaluations"] += o.get("checked", 0)
@@ -1199,7 +1222,7 @@ def execute(ctx, tasks):
 
 RULE = (
     "public tearfree(lr, options) on small trees (matrices, vectors, rank 3, scalar, unit dims) over T = 5-6 steps: {Shampoo under x64, "
-    "Sketchy in float32} x block size {2,3,4,1024} x merge limit {2,6,12,1024} x statistics / preconditioner frequency {1,2,3} x "
+    "Sketchy in float32, with / without add_ggt and per-axis memory_alloc ranks} x block size {2,3,4,1024} x merge limit {2,6,12,1024} x statistics / preconditioner frequency {1,2,3} x "
     "second-moment decay {1, .999, .9, .5} x graft {NONE, SGD, RMSPROP, ADAFACTOR} x start step {0..3, never} x skip rules (rank 1, "
     "any_dim_gt 5) x momentum {off, .9, .5} x ema x nesterov x weight decay {0, .1, .01} before/after x constant / scheduled lr x gradient "
     "histories (normal x scale 1e-5..30, integer-valued, low rank, block-scale-disparate 1e-4/1e-5, all-zero steps), jit or eager; plus "
@@ -1216,7 +1239,10 @@ def run(ctx):
         ctx.cov["dev_nolean"] = True
         ctx.cov["obligations"], ctx.cov["discharged"] = 1, 0
     else:
-        ctx.lean_stage()
+        # second tie: reshaper._derive_shapes, shampoo._blocks_metadata, merge_small_dims and the graft mask as translated from
+        # today's source are proved equal to the model's functions (namespace GenProps.C15 of Props/Gen.lean)
+        kit.gen_stage(ctx)
+        ctx.lean_stage(extra_props=("Gen",))
     const_stage(ctx)
     ctx.cov["rule"] = RULE
     ctx.assumptions += [
@@ -1227,6 +1253,10 @@ def run(ctx):
         "evaluates its decay schedule in float32)",
         "a leaf whose statistics have an eigenvalue within a factor 8 of the cut (Sketchy: a retained direction within 1e-3 s_max of the "
         "cut-off singular value) is classified near-cut and not compared (discontinuity of the specification itself)",
+        "Sketchy options ekfac_svd and linear_approx_tail are NOT in the quantifier: their documentation names the idea only (no formula "
+        "for the ekfac preconditioner; 'approximately linear relationship between log(eigval) and log(rank)' while the code regresses raw "
+        "eigenvalues on raw ranks with slope s_xy/s_x^2 and evaluates at log ranks), so no independent reference can be written; add_ggt "
+        "(documented: only stores a statistic) and memory_alloc (documented: rank per tensor axis) are",
         "Sketchy histories are restricted to factors of full rank from the first step (else the SVD noise decides which directions are "
         "kept); the frequent-directions step itself is C09's subject",
         "correspondence: the Lean composition at binary64 with a Jacobi eigh/svd kernel re-checked against the eigh specification "
